@@ -117,9 +117,11 @@ CHECKS = {
           "product (-1 * x) the parsers build for it; plan codec with a series/index-scan/exchange plan and only for expressions the "
           "planner accepts as a field. Findings F-C12-1..8 (integral float printed as integer, unary minus loses grouping, "
           "AND/OR precedence of sql.y, integer saturation in yyParser.Lex, sub-microsecond durations, bitwise operators unknown to "
-          "ParseExpr, unquoted sort field names, non-float fill value dropped): F-C12-5, 6, 7 were repaired by fix: commits in /repo; the open ones "
-          "(F-C12-1, 2, 3, 4, 8) are re-observed and attributed only when the real result equals the prediction of "
-          "the finding's deviation model exactly.",
+          "ParseExpr, unquoted sort field names, non-float fill value dropped): all but F-C12-1 were repaired by fix: commits in /repo (F-C12-2 520d3aa, "
+          "F-C12-3 107bb40, F-C12-4 5006606, F-C12-5 f0e838f, F-C12-6 d9352b7, F-C12-7 4010f80, F-C12-8 f089fa3; their deviation models stay as "
+          "mutation seeds, a regression is a violation); the open F-C12-1 (existing tests pin the printed text) is re-observed and attributed "
+          "only when the real result equals the prediction of its deviation model exactly. Fill values are compared as numbers (the wire "
+          "field is a double). After every decode the receive buffer is overwritten and the decoded object compared again (it must own its data).",
   "technique": "TLA+ spec (ExprRoundTrip.tla) model-checked by TLC; TLC-generated expression trees and token texts replayed into the real parsers, printer and shipping codecs with structural comparison",
  },
  "C20": {
